@@ -3,6 +3,7 @@
 # patches named neg_* are negative controls and must leave the check at exit 0.
 # usage: tools/selftest.sh [PROP...]
 cd /verif
+if [ -n "$(git -C /repo status --porcelain)" ]; then echo "selftest: /repo has uncommitted changes (commit contract files first)"; exit 2; fi
 props=("$@"); [ ${#props[@]} -eq 0 ] && props=($(ls selftest))
 rc=0
 for p in "${props[@]}"; do
